@@ -362,6 +362,75 @@ fn check_tape(tape: &[u8], gates: &Gates, stats: &mut Stats, counting: bool, cli
     Ok(())
 }
 
+/// Large sets: a unit of up to ~30 declarations, ONE FILE PER DECLARATION, in random file orders -
+/// through analyze() with explicit order and through fresh in-memory projects (a hash map of a
+/// few dozen files has many more iteration orders than one of three).
+fn check_large_set(tape: &[u8], gates: &Gates, stats: &mut Stats, counting: bool) -> Result<(), Failure> {
+    let mut profile = Profile::default();
+    profile.max_types = 10;
+    profile.max_fbs = 8;
+    profile.max_funcs = 5;
+    profile.max_progs = 4;
+    profile.max_stmts = 3;
+    let ext = crate::tape::derived(tape, 4096);
+    let mut t = Tape::new(&ext);
+    let valid = gen_unit(&mut t, gates, &profile);
+    let mut choice = Tape::new(&ext[2048..]);
+    let kinds: Vec<FaultKind> = ALL_FAULTS.iter().copied().filter(|k| valid.sites[k.index()] > 0).collect();
+    let unit = if !kinds.is_empty() && choice.ratio(2, 3) {
+        let k = kinds[choice.below(kinds.len())];
+        let s = choice.below(valid.sites[k.index()]);
+        gen_unit_with(&mut Tape::new(&ext), gates, &profile, Some((k, s)))
+    } else {
+        valid
+    };
+    let chunks = chunks_of(&unit.lib, gates);
+    let n = chunks.len();
+    gates.take_wanted();
+    if n < 6 {
+        if counting {
+            stats.case(false, fnv_of(tape));
+        }
+        return Ok(());
+    }
+    let canonical = Arrangement { files: vec![(0..n).collect()] };
+    let base = observe_analyze(&canonical, &chunks).map_err(|(k, d)| Failure::new("large-set-canonical", &k, d, json!({"chunks": chunks})))?;
+    if base.parse_failed {
+        if counting {
+            stats.class("generator-health-failure");
+        }
+        return Ok(());
+    }
+    let single_fault = unit.planted.is_some();
+    for r in 0..5 {
+        let mut perm: Vec<usize> = (0..n).collect();
+        for i in (1..n).rev() {
+            perm.swap(i, choice.below(i + 1));
+        }
+        let arr = Arrangement { files: perm.iter().map(|&c| vec![c]).collect() };
+        let fail = |check: &str, kind: &str, detail: String| Failure::new(check, kind, detail, json!({"chunks": chunks, "arrangement": arr.files, "files": arr.texts(&chunks), "canonical_codes": base.codes, "fault": unit.planted.as_ref().map(|p| format!("{:?}", p.kind))}));
+        let o = observe_analyze(&arr, &chunks).map_err(|(k, d)| fail("large-set", &k, d))?;
+        if counting {
+            stats.case(true, hash_str(&format!("{}|{}", arr.describe(), chunks.join("\u{1}"))));
+            stats.class(&format!("large-set.files-{}", if n < 10 { "6..9" } else if n < 20 { "10..19" } else { "20+" }));
+        }
+        if o.ok != base.ok || (single_fault && o.codes != base.codes) {
+            return Err(fail("large-set", "verdict-differs", format!("one file: ok={} codes {:?}; {} files in order #{}: ok={} codes {:?}", base.ok, base.codes, n, r, o.ok, o.codes)));
+        }
+        if single_fault && o.locs.iter().map(|l| (&l.0, l.1, l.2, l.3)).collect::<Vec<_>>() != base.locs.iter().map(|l| (&l.0, l.1, l.2, l.3)).collect::<Vec<_>>() {
+            return Err(fail("large-set", "location-differs", format!("one file: (code, chunk, offset, len) {:?}; {} files: {:?}", base.locs, n, o.locs)));
+        }
+        let (ok, codes) = observe_project(&arr, &chunks).map_err(|(k, d)| fail("large-set-project", &k, d))?;
+        if counting {
+            stats.class("large-set.project-run");
+        }
+        if ok != base.ok || (single_fault && codes != base.codes) {
+            return Err(fail("large-set-project", "verdict-differs", format!("Project::semantic on {} files: ok={} codes {:?}; one file: ok={} codes {:?}", n, ok, codes, base.ok, base.codes)));
+        }
+    }
+    Ok(())
+}
+
 /// Scope-leak grid (exhaustive, deterministic): a name that is declared in ONE declaration (as a
 /// variable of any class, or as a function block instance) is used in ANOTHER declaration that
 /// does not declare it.  owner kind x variable class x (plain variable | instance) x user kind;
@@ -473,7 +542,7 @@ pub fn run(ctx: &Ctx) -> i32 {
         ctx.tier,
         ctx.seed,
         "exploration",
-        "units of <= 5 top-level declarations with cross references (valid, one planted fault, or one declaration written twice), one chunk per declaration: ALL permutations of the chunks, ALL set partitions into <= 3 files x ALL file orders, plus random permuted partitions; verdict (and for single-fault units the code multiset and every mappable primary label as (code, chunk, offset in chunk, length)) must equal the canonical single file. analyze() with explicit library order decides; Project::semantic() on fresh in-memory projects (4 per sampled arrangement: fresh HashMap seeds) and `ironplcc check` in fresh processes with permuted arguments are sampled. Plus the exhaustive scope-leak grid: a name declared in one declaration (function / function block / program x 6 variable classes x plain variable / function block instance) and used in another one that does not declare it must be rejected (P0015 / P0021) in every permutation and partition. Non-trivial: >= 3 declarations, >= 2 reference edges, arrangement != canonical; distinct by (arrangement, chunks).",
+        "units of <= 5 top-level declarations with cross references (valid, one planted fault, or one declaration written twice), one chunk per declaration: ALL permutations of the chunks, ALL set partitions into <= 3 files x ALL file orders, plus random permuted partitions; verdict (and for single-fault units the code multiset and every mappable primary label as (code, chunk, offset in chunk, length)) must equal the canonical single file. analyze() with explicit library order decides; Project::semantic() on fresh in-memory projects (4 per sampled arrangement: fresh HashMap seeds) and `ironplcc check` in fresh processes with permuted arguments are sampled. Plus the exhaustive scope-leak grid: a name declared in one declaration (function / function block / program x 6 variable classes x plain variable / function block instance) and used in another one that does not declare it must be rejected (P0015 / P0021) in every permutation and partition. Large sets: units of 6..30 declarations, one file per declaration, 5 random file orders each through analyze() and through a fresh in-memory project. Non-trivial: >= 3 declarations, >= 2 reference edges, arrangement != canonical; distinct by (arrangement, chunks).",
     );
     let gates = ctx.gates_for("C06");
     let off = gates.off_list();
@@ -483,6 +552,11 @@ pub fn run(ctx: &Ctx) -> i32 {
     let out = run_tapes("C06", ctx.seed, ctx.threads, cases, 700, |tape, stats, counting| {
         let g = Gates::with_off(off.clone());
         check_tape(tape, &g, stats, counting, &cli_budget)
+    });
+    rep.add(out);
+    let out = run_tapes("C06L", ctx.seed ^ 0x1a26e, ctx.threads, ctx.tier.pick(3_000, 60_000), 24, |tape, stats, counting| {
+        let g = Gates::with_off(off.clone());
+        check_large_set(tape, &g, stats, counting)
     });
     rep.add(out);
     crate::fuzzrun::tape_campaign(ctx, &mut rep, "C06", &gates);
